@@ -152,8 +152,11 @@ func broken(format string, a ...any) int {
 	return 2
 }
 
+var curID string
+
 func run(id, tier, replay string) int {
 	start := time.Now()
+	curID = id
 	var cfg propCfg
 	b, err := os.ReadFile(filepath.Join(verifDir, "props", id+".json"))
 	if err != nil {
@@ -301,6 +304,9 @@ func run(id, tier, replay string) int {
 				}
 				cmd := exec.Command("timeout", "-s", "QUIT", "-k", "20", strconv.Itoa(to), bt.bin,
 					"-test.run", runRe, "-test.timeout", "0", "-test.count", "1")
+				if coverOn() && !bt.amp {
+					cmd.Args = append(cmd.Args, "-test.coverprofile", filepath.Join(scratch, tag+".cov"))
+				}
 				cmd.Dir = scratch
 				env := append(os.Environ(),
 					"VERIF_SEED="+strconv.FormatUint(seed, 10), "VERIF_TIER="+tier,
@@ -554,6 +560,9 @@ func run(id, tier, replay string) int {
 		}
 		return 0
 	}
+	if coverOn() {
+		coverReport(id, scratch, outDir)
+	}
 	fl := cfg.Floor[tier]
 	lowCoverage := ""
 	if evaluations < fl.Evaluations || distinct < fl.DistinctNontrivial {
@@ -632,6 +641,9 @@ func build(t target, bin, scratch string, idx int, ampOv map[string]string) (str
 	args := []string{"test", "-c", "-vet=off", "-tags", "verif", "-o", bin}
 	if !t.NoRace {
 		args = append(args, "-race")
+	}
+	if coverOn() && ampOv == nil {
+		args = append(args, "-cover", "-covermode=atomic", "-coverpkg="+coverPkgs(curID))
 	}
 	switch t.Kind {
 	case "black", "goctl":
